@@ -42,14 +42,34 @@ Insts == <<EmptyObj, Obj([a |-> EmptyObj]), Obj([a |-> Num(R_3)]), Obj([a |-> Nu
            Num(R_1), Null, Arr(<<EmptyObj>>), Obj([a |-> Obj([y |-> Num(R_1)])]),
            Obj([b |-> Obj([q |-> Str("a")])]), Obj([a |-> Obj([q |-> Num(R_1)]), c |-> EmptyObj])>>
 
-Init == cs \in Roots(0) /\ phase = "new"
+\* roots that refer to a document served by the Loader.  The remote document is NOT part of the root schema tree:
+\* its own defaults (valid or not) and its $dynamicRef play no part in ValidateDefaults, and ApplyDefaults does not
+\* follow the reference; a default declared BESIDE the reference in the root is validated through it.
+RootURI == URI("http", "h1", TRUE, <<"root.json">>)
+RemURI  == URI("http", "h1", TRUE, <<"r.json">>)
+RemRef  == Ref(RelRef(<<"r.json">>), FragNone)
+RemDocs == {IntS, IntS @@ [default |-> Str("a")], IntS @@ [default |-> Num(R_1)],
+            [properties |-> [x |-> [default |-> Num(R_1), type |-> "string"]]],
+            [defs |-> [t |-> [dynamicAnchor |-> "n", type |-> "integer"]], dynamicRef |-> LocalRef(FragName("n"))]}
+RemRoots == {[properties |-> [a |-> [ref |-> RemRef]]],
+             [properties |-> [a |-> [ref |-> RemRef, default |-> Num(R_1)]]],
+             [properties |-> [a |-> [ref |-> RemRef, default |-> Str("a")]]],
+             [properties |-> [a |-> [ref |-> RemRef, default |-> EmptyObj]]],
+             [properties |-> [a |-> [default |-> Num(R_1)]], defs |-> [u |-> [ref |-> RemRef]]],
+             [properties |-> [a |-> [type |-> "object", properties |-> [x |-> [allOf |-> <<[ref |-> RemRef]>>, default |-> Num(R_1)]]]]]}
+RemCases == {[remcase |-> TRUE, s |-> r, rem |-> d] : r \in RemRoots, d \in RemDocs}
+IsRem(c) == "remcase" \in DOMAIN c
+SchemaOf(c) == IF IsRem(c) THEN c.s ELSE c
+UnivOf(c) == IF IsRem(c) THEN [docs |-> <<[uri |-> RootURI, s |-> c.s], [uri |-> RemURI, s |-> c.rem]>>] ELSE Single(c)
+Init == cs \in Roots(0) \cup RemCases /\ phase = "new"
 Next == phase = "new" /\ phase' = "done" /\ cs' = cs
 Spec == Init /\ [][Next]_vars
 
-LawsHold == phase = "done" => \A i \in DOMAIN Insts : Laws(cs, Insts[i])
+LawsHold == phase = "done" => \A i \in DOMAIN Insts : Laws(SchemaOf(cs), Insts[i])
 
 Emit == phase = "done" =>
-  PrintT(<<"CASE", ToJson([s |-> cs, after |-> [i \in DOMAIN Insts |-> Apply(cs, Insts[i])],
-                           vd |-> IF DefaultsValid(cs) THEN "ok" ELSE "err"])>>)
+  PrintT(<<"CASE", ToJson((IF IsRem(cs) THEN [rem |-> cs.rem, rootURI |-> RootURI, remURI |-> RemURI] ELSE <<>>) @@
+                          [s |-> SchemaOf(cs), after |-> [i \in DOMAIN Insts |-> Apply(SchemaOf(cs), Insts[i])],
+                           vd |-> IF DefaultsValidU(UnivOf(cs)) THEN "ok" ELSE "err"])>>)
 ASSUME PrintT(<<"INSTS", ToJson(Insts)>>)
 ====
